@@ -82,4 +82,19 @@ theorem runM_invariant (next : σ → ι → Except Panic (ο × σ))
       have := houts j (by simpa using hi)
       simpa using this
 
+/-- The shape shared by every "machine = from-scratch definition" theorem: if the constructor
+    establishes `Inv []` and every step preserves it while producing `spec (inputs so far)`,
+    then on every stream every output equals the spec of the corresponding prefix. -/
+theorem method_spec {σ ι ο : Type} (new : Res σ) (next : σ → ι → Except Panic (ο × σ))
+    (Inv : List ι → σ → Prop) (spec : List ι → ο)
+    (hnew : ∃ s, new = .ok s ∧ Inv [] s)
+    (hstep : ∀ h s x, Inv h s → ∃ o s', next s x = .ok (o, s') ∧ Inv (h ++ [x]) s' ∧ o = spec (h ++ [x]))
+    (xs : List ι) :
+    ∃ s0 outs s', new = .ok s0 ∧ runM next s0 xs = .ok (outs, s') ∧ outs.length = xs.length ∧
+      ∀ i (hi : i < outs.length), outs[i] = spec (xs.take (i + 1)) := by
+  obtain ⟨s0, hn, hi0⟩ := hnew
+  obtain ⟨os, s', hr, _, hlen, houts⟩ :=
+    runM_invariant next Inv (fun h o => o = spec h) hstep xs [] s0 hi0
+  exact ⟨s0, os, s', hn, hr, hlen, fun i hi => by simpa using houts i hi⟩
+
 end Yata
